@@ -25,11 +25,22 @@ ASSUMPTIONS = [
 ]
 
 
+
+def S_addr_range(B):
+    """the address window a `.map` declares (any 0 <= lo <= hi <= 0xFFFF; e.g. 0x8000-0xFFFF for the upper halves of banks 00-3F of a HiROM map): the
+    offset law does not depend on it -- the position inside the bank is the address modulo the bank size"""
+    import z3 as _z3
+    k = getattr(B, "_addr_ranges", 0)
+    B._addr_ranges = k + 1
+    lo, hi = B.int(f"addr_lo{k}"), B.int(f"addr_hi{k}")
+    B.assume(_z3.And(0 <= lo, lo <= hi, hi <= 0xFFFF))
+    return (lo, hi)
+
 def shape_mapping(mask, writable):
     def shape(B):
         lo = B.int("lo")
         hi = B.int("hi")
-        m = B.inst("a816.cpu.mapping.Mapping", bank_range=(lo, hi), mirror=None, address_range=(0, 0xFFFF), mask=mask, writable=writable)
+        m = B.inst("a816.cpu.mapping.Mapping", bank_range=(lo, hi), mirror=None, address_range=S_addr_range(B), mask=mask, writable=writable)
         return {"m": m, "value": B.int("value"), "p": B.int("p")}
     return shape
 
@@ -39,8 +50,8 @@ def shape_bus(mask, writable, mask2=0x10000, writable2=True):
     def shape(B):
         lo, hi = B.int("lo"), B.int("hi")
         lo2, hi2 = B.int("lo2"), B.int("hi2")
-        m = B.inst("a816.cpu.mapping.Mapping", bank_range=(lo, hi), mirror=None, address_range=(0, 0xFFFF), mask=mask, writable=writable)
-        m2 = B.inst("a816.cpu.mapping.Mapping", bank_range=(lo2, hi2), mirror=None, address_range=(0, 0xFFFF), mask=mask2, writable=writable2)
+        m = B.inst("a816.cpu.mapping.Mapping", bank_range=(lo, hi), mirror=None, address_range=S_addr_range(B), mask=mask, writable=writable)
+        m2 = B.inst("a816.cpu.mapping.Mapping", bank_range=(lo2, hi2), mirror=None, address_range=S_addr_range(B), mask=mask2, writable=writable2)
         lookup = B.symmap("lookup", {1: "A", 2: "B"})
         bus = B.inst("a816.cpu.mapping.Bus", name=None, lookup=lookup, inverse_lookup=B.dict({}), mappings=B.dict({"A": m, "B": m2}),
                      editable=True, internal_id=0)
@@ -53,8 +64,8 @@ def shape_bus(mask, writable, mask2=0x10000, writable2=True):
 def shape_bus_map(identifier, mask, writeable, with_mirror, editable=True):
     def shape(B):
         lo2, hi2 = B.int("lo2"), B.int("hi2")
-        m = B.inst("a816.cpu.mapping.Mapping", bank_range=(B.int("lo1"), B.int("hi1")), mirror=None, address_range=(0, 0xFFFF), mask=0x8000, writable=False)
-        m2 = B.inst("a816.cpu.mapping.Mapping", bank_range=(lo2, hi2), mirror=None, address_range=(0, 0xFFFF), mask=0x10000, writable=True)
+        m = B.inst("a816.cpu.mapping.Mapping", bank_range=(B.int("lo1"), B.int("hi1")), mirror=None, address_range=S_addr_range(B), mask=0x8000, writable=False)
+        m2 = B.inst("a816.cpu.mapping.Mapping", bank_range=(lo2, hi2), mirror=None, address_range=S_addr_range(B), mask=0x10000, writable=True)
         lookup = B.symmap("lookup", {1: "A", 2: "A_mirror", 3: "B"})
         bus = B.inst("a816.cpu.mapping.Bus", name=None, lookup=lookup, inverse_lookup=B.dict({}),
                      mappings=B.dict({"A": m, "A_mirror": m, "B": m2}), editable=editable, internal_id=0)
@@ -104,11 +115,15 @@ def _bus_map_modifies(I, st):
     return {I.hget(st, bus).fields["lookup"].oid}
 
 
-def setup_engine(E):
+def bus_map_loop_specs():
     from vf.pyvc.loops import LoopSpec
     q = "a816.cpu.mapping.Bus.map"
-    E.I.loop_specs[(q, 0)] = LoopSpec("Bus.map#primary", H + "bus_map_loop0_inv", havoc=_bus_map_havoc(0), modifies=_bus_map_modifies, ghost=_bus_map_ghost0)
-    E.I.loop_specs[(q, 1)] = LoopSpec("Bus.map#mirror", H + "bus_map_loop1_inv", havoc=_bus_map_havoc(1), modifies=_bus_map_modifies, ghost=_bus_map_ghost)
+    return {(q, 0): LoopSpec("Bus.map#primary", H + "bus_map_loop0_inv", havoc=_bus_map_havoc(0), modifies=_bus_map_modifies, ghost=_bus_map_ghost0),
+            (q, 1): LoopSpec("Bus.map#mirror", H + "bus_map_loop1_inv", havoc=_bus_map_havoc(1), modifies=_bus_map_modifies, ghost=_bus_map_ghost)}
+
+
+def setup_engine(E):
+    E.I.loop_specs.update(bus_map_loop_specs())
     # modular use: callers of Address.__add__ see its functional contract (established by address_add_refines_spec_contract)
     E.I.contracts["a816.cpu.mapping.Address.__add__"] = "vf.specs.busmodel.address_add_spec"
 
@@ -160,14 +175,22 @@ def address_contract_cases(E):
     return cs
 
 
-def cases(E):
-    cs = address_contract_cases(E)
+def bus_map_cases(E):
+    """how a user `.map` becomes part of the active mapping (primary entry and mirror entry with the same window, size and ROM/RAM status)"""
+    cs = []
+    L = bus_map_loop_specs()
     for ident in ("X", "A"):
         for with_mirror in (False, True):
             for mask, wr in ((0x8000, False), (0x10000, True)):
                 cs.append(Case(H + "bus_map_contract", f"id={ident},mirror={with_mirror},window={mask:#x},{'RAM' if wr else 'ROM'}",
-                               shape_bus_map(ident, mask, wr, with_mirror), target=["a816.cpu.mapping.Bus.map"]))
-    cs.append(Case(H + "bus_map_contract", "frozen", shape_bus_map("X", 0x8000, False, True, editable=False), target=["a816.cpu.mapping.Bus.map"]))
+                               shape_bus_map(ident, mask, wr, with_mirror), target=["a816.cpu.mapping.Bus.map"], loop_specs=L))
+    cs.append(Case(H + "bus_map_contract", "frozen", shape_bus_map("X", 0x8000, False, True, editable=False), target=["a816.cpu.mapping.Bus.map"], loop_specs=L))
+    return cs
+
+
+def cases(E):
+    cs = address_contract_cases(E)
+    cs += bus_map_cases(E)
     cs += live_bus_cases(E)
     for style in ("hex", "dec", "bin"):
         cs.append(Case(H + "parse_map_literals_contract", f"numbers written in {style}", shape_parse_map(style), target=["a816.parse.parser_states.parse_map"]))
